@@ -55,9 +55,13 @@ theorem setVarByName_fields2 (s : St) (n v : Bytes) :
     (s.setVarByName n v).fs = s.fs ∧ (s.setVarByName n v).argv = s.argv ∧ (s.setVarByName n v).argc = s.argc ∧
     (s.setVarByName n v).idx = s.idx ∧ (s.setVarByName n v).hadFiles = s.hadFiles ∧ (s.setVarByName n v).stdin = s.stdin ∧
     (s.setVarByName n v).cur = s.cur ∧ (s.setVarByName n v).takes = s.takes ∧ (s.setVarByName n v).edited = s.edited ∧
-    (s.setVarByName n v).filename = s.filename ∧ (s.setVarByName n v).fnr = s.fnr := by
+    (s.setVarByName n v).walkEdited = s.walkEdited ∧ (s.setVarByName n v).fnr = s.fnr := by
   unfold St.setVarByName
-  split <;> simp
+  split
+  · simp
+  · split
+    · simp
+    · split <;> simp
 
 /-- one operand walk: what it delivers plus what is pending afterwards is what was pending before; the take log grows by
 exactly what was delivered; the `edited` flag is untouched -/
@@ -203,6 +207,8 @@ theorem streamInv_stable (full : List Item) : Stable (StreamInv full) where
   argv s i v _ := streamInv_edited rfl
   argc s n _ := streamInv_edited rfl
   close s f h := streamInv_of_same h rfl rfl rfl
+  fname s v _ := streamInv_edited rfl
+  fsep s v h := streamInv_of_same h rfl rfl rfl
   enter s h := streamInv_of_same h rfl rfl rfl
   leave s h := streamInv_of_same h rfl rfl rfl
   take s r s1 h hn := by
